@@ -25,6 +25,12 @@ def run(ctx):
     deflate_table(ctx, cfg, r1, r2, r3, r5)
     dp.rule_sticky(ctx, cfg, r4)
     dp.rule_done_origin(ctx, cfg, r4)
+    # "nothing pending" (R14.4) is truthful only if the pending-output bookkeeping loses nothing: every byte a block flush produced is
+    # either copied to the caller or recorded as pending (flush_ofs / flush_remaining), whatever room the caller had left
+    r6 = ctx.rule("R14.6", "pending-output bookkeeping is conservative (copied + pending = produced): StreamEnd / Ok never hides produced bytes", floor=3, config=cfg)
+    dp.rule_flush_output_conservation(ctx, cfg, r6)
+    from rules import c02
+    c02.rule_cb_flush_output_conservation(ctx, cfg, r6)
 
 
 def deflate_table(ctx, cfg, r1, r2, r3, r5):
